@@ -122,6 +122,60 @@ pub fn eval_vec(ctx: &mut Ctx, r: &Row, pl: &Placement, v: &[u8], tag: &str) {
     }
 }
 
+/// history: one MatrixMap object filled several times (traverse_mut + write_padding), read in between;
+/// after every fill it must equal a freshly built map of the same codewords
+pub fn eval_reuse(ctx: &mut Ctx, r: &Row, pl: &Placement, vs: &[Vec<u8>]) {
+    ctx.eval();
+    let size = r.size;
+    let case = || {
+        let mut c = Case::new("place_reuse").with("size", r.name).with("n", vs.len());
+        for (i, v) in vs.iter().enumerate() {
+            c = c.bytes(&format!("cw{}", i), v);
+        }
+        c
+    };
+    let res = guard(|| {
+        let mut m = MatrixMap::<bool>::new(size);
+        let mut outs = Vec::new();
+        for v in vs {
+            let mut visited = 0usize;
+            m.traverse_mut(|idx, bits| {
+                visited += 1;
+                let mut cw = v[idx];
+                for bit in bits.into_iter().rev() {
+                    *bit = cw & 1 == 1;
+                    cw >>= 1;
+                }
+            });
+            m.write_padding();
+            let bm = m.bitmap();
+            outs.push((visited, m.codewords(), bm.bits().to_vec(), m == MatrixMap::new_with_codewords(v, size)));
+        }
+        outs
+    });
+    match res {
+        Err(p) => ctx.violation("panic", &case(), p),
+        Ok(outs) => {
+            for (k, (visited, back, bits, same)) in outs.iter().enumerate() {
+                let want = render(r, &pl.fill(&vs[k]));
+                if *visited != r.total() {
+                    return ctx.violation("reuse_codewords_skipped", &case(), format!("fill #{} of the same map visited {} of {} codewords", k + 1, visited, r.total()));
+                }
+                if back != &vs[k] || bits != &want || !*same {
+                    return ctx.violation("reuse_differs_from_fresh_map", &case(), format!("after fill #{} the reused map differs from a fresh one (codewords equal: {}, bitmap equal: {}, == fresh: {})", k + 1, back == &vs[k], bits == &want, same));
+                }
+            }
+            ctx.count("reuse.ok");
+            let mut key = b"reuse".to_vec();
+            key.extend_from_slice(r.name.as_bytes());
+            for v in vs {
+                key.extend_from_slice(&v[..v.len().min(8)]);
+            }
+            ctx.nontrivial(hash64(&key));
+        }
+    }
+}
+
 pub fn run(ctx: &mut Ctx) {
     let thorough = ctx.is_thorough();
     let mut item = 0usize;
@@ -138,7 +192,7 @@ pub fn run(ctx: &mut Ctx) {
             }
             item += 1;
         }
-        let complete = thorough || r.rows * r.cols <= 32 * 32;
+        let complete = thorough || r.rows * r.cols <= 144 * 144;
         all_bits &= complete;
         let nb = 8 * r.total();
         let step = if complete { 1 } else { 61 };
@@ -152,10 +206,15 @@ pub fn run(ctx: &mut Ctx) {
             item += 1;
             b += step;
         }
-        let nr = ctx.budget(16 * 10, 16 * 400);
-        for _ in 0..nr {
+        let nr = ctx.budget(16 * 60, 16 * 600);
+        for k in 0..nr {
             let v = ctx.rng.bytes(r.total());
             eval_vec(ctx, r, &pl, &v, "random");
+            if k % 4 == 0 {
+                let n = ctx.rng.range(2, 4);
+                let vs: Vec<Vec<u8>> = (0..n).map(|j| match (j + k as usize) % 3 { 0 => ctx.rng.bytes(r.total()), 1 => vec![0xFF; r.total()], _ => vec![0; r.total()] }).collect();
+                eval_reuse(ctx, r, &pl, &vs);
+            }
         }
     }
     ctx.exhaustive.insert("48_sizes_x_every_codeword_bit_pair".into(), true);
@@ -167,6 +226,10 @@ pub fn replay(ctx: &mut Ctx, case: &Case) {
     match case.kind.as_str() {
         "place_map" => eval_map(ctx, r),
         "place_vec" => eval_vec(ctx, r, &Placement::for_row(r), &case.get_bytes("cw"), "replay"),
+        "place_reuse" => {
+            let vs: Vec<Vec<u8>> = (0..case.get_usize("n")).map(|i| case.get_bytes(&format!("cw{}", i))).collect();
+            eval_reuse(ctx, r, &Placement::for_row(r), &vs);
+        }
         _ => ctx.harness_error("unknown case kind"),
     }
 }
